@@ -865,9 +865,12 @@ class InterfaceClass(_InterfaceClassBase):
         if not all:
             return self.__attrs.items()
 
+        # Follow the resolution order, like ``get`` (and so ``__getitem__``)
+        # does: the description comes from the first interface in
+        # ``__iro__`` that defines the name.
         r = {}
-        for base in self.__bases__[::-1]:
-            r.update(dict(base.namesAndDescriptions(all)))
+        for iface in self.__iro__[::-1]:
+            r.update(dict(iface.namesAndDescriptions()))
 
         r.update(self.__attrs)
 
